@@ -72,11 +72,11 @@ theorem treatLoop_eq (occ : Occ) (f : Item → Res) : ∀ (v : List Item) (pos :
 /-! ### item tests of `instance of` against those of `match_sequence_type` -/
 
 theorem instLeafNode_eq (k : Kind) (name : Nat) (kids : List Nat) (root : Bool) (l : Leaf)
-    (ht : trigF18dItem l (.node k name kids root) = false) (hw : k = .document → kids.length ≤ 1) :
+    (hw : k = .document → kids.length ≤ 1) :
     instLeafNode k name kids root l = matchLeafNode k name kids l := by
   cases l with
   | kind k' nt =>
-    cases k' <;> cases nt <;> cases k <;> simp_all [trigF18dItem, instLeafNode, matchLeafNode, nameOK]
+    cases k' <;> cases nt <;> cases k <;> simp_all [instLeafNode, matchLeafNode, nameOK]
     all_goals (try (constructor <;> intro h <;> simp_all))
   | docElem nt =>
     cases k <;> simp [instLeafNode, matchLeafNode]
@@ -84,7 +84,7 @@ theorem instLeafNode_eq (k : Kind) (name : Nat) (kids : List Nat) (root : Bool) 
     match kids, this with
     | [], _ => simp
     | [e], _ => cases h : nameOK nt e <;> simp [h]
-  | anyNode => cases k <;> simp_all [trigF18dItem, instLeafNode, matchLeafNode]
+  | anyNode => cases k <;> simp_all [instLeafNode, matchLeafNode]
   | _ => simp [instLeafNode, matchLeafNode]
 
 def itemDocOK : Item → Bool
@@ -92,10 +92,9 @@ def itemDocOK : Item → Bool
   | _ => true
 
 /-- per item: the test applied by `instance of` / `treat as` is true exactly when the one of
-`match_sequence_type` is, outside the trigger of F18d -/
+`match_sequence_type` is -/
 theorem instItem_iff (tb : Tables) (xsd11 : Bool) (t : Ty) (x : Item)
-    (htr : ∀ l o, t = .leaf l o → trigF18dItem l x = false) (hd : itemDocOK x = true)
-    (hk : t.hasTypeArg = false) :
+    (hd : itemDocOK x = true) (hk : t.hasTypeArg = false) :
     instItem tb xsd11 t x = .ok true ↔ itemFn tb xsd11 true t x = .ok true := by
   cases t with
   | empty => simp [instItem, instItemTok, itemFn]
@@ -111,7 +110,6 @@ theorem instItem_iff (tb : Tables) (xsd11 : Bool) (t : Ty) (x : Item)
     simp only [instItem, instItemTok]
     rw [matchSt_eq_seqMatch _ _ _ _ _ (by simp)]; simp [seqMatch, itemFn]
   | leaf l o =>
-    have htr := htr l o rfl
     cases l with
     | kindT k' nt ta o' => simp [Ty.hasTypeArg, Leaf.hasTypeArg] at hk
     | item => cases x <;> simp [instItem, Leaf.isName, instItemTok, itemFn, matchLeaf]
@@ -130,19 +128,19 @@ theorem instItem_iff (tb : Tables) (xsd11 : Bool) (t : Ty) (x : Item)
     | anyNode =>
       cases x with
       | node k n kids root =>
-        have := instLeafNode_eq k n kids root .anyNode htr (by intro e; subst e; simpa [itemDocOK] using hd)
+        have := instLeafNode_eq k n kids root .anyNode (by intro e; subst e; simpa [itemDocOK] using hd)
         simp [instItem, Leaf.isName, instItemTok, itemFn, matchLeaf, this]
       | _ => simp [instItem, Leaf.isName, instItemTok, itemFn, matchLeaf]
     | kind k' nt =>
       cases x with
       | node k n kids root =>
-        have := instLeafNode_eq k n kids root (.kind k' nt) htr (by intro e; subst e; simpa [itemDocOK] using hd)
+        have := instLeafNode_eq k n kids root (.kind k' nt) (by intro e; subst e; simpa [itemDocOK] using hd)
         simp [instItem, Leaf.isName, instItemTok, itemFn, matchLeaf, this]
       | _ => simp [instItem, Leaf.isName, instItemTok, itemFn, matchLeaf]
     | docElem nt =>
       cases x with
       | node k n kids root =>
-        have := instLeafNode_eq k n kids root (.docElem nt) htr (by intro e; subst e; simpa [itemDocOK] using hd)
+        have := instLeafNode_eq k n kids root (.docElem nt) (by intro e; subst e; simpa [itemDocOK] using hd)
         simp [instItem, Leaf.isName, instItemTok, itemFn, matchLeaf, this]
       | _ => simp [instItem, Leaf.isName, instItemTok, itemFn, matchLeaf]
 
